@@ -87,10 +87,61 @@ class VLoop(asyncio.SelectorEventLoop):
             raise OSError("no simulated network attached")
         return await self.net.tcp_connect(self, protocol_factory, host, port)
 
+    def run_in_executor(self, executor, func, *args):  # type: ignore[override]
+        """Threads do not exist on the virtual loop: the function runs at once, in line, and the caller gets a finished future (what a
+        thread pool gives for a call that takes no virtual time).  Without this a library that moves blocking work to the default
+        executor would leave the virtual loop with nothing to wait for."""
+        fut = self.create_future()
+        try:
+            fut.set_result(func(*args))
+        except BaseException as e:  # noqa: BLE001
+            if isinstance(e, (KeyboardInterrupt, SystemExit)):
+                raise
+            fut.set_exception(e)
+        return fut
+
+    async def getaddrinfo(self, host, port, *, family=0, type=0, proto=0, flags=0):  # type: ignore[override]
+        """Name resolution on the simulated network: numeric addresses resolve to themselves, names to the simulated host that
+        carries them; anything else does not exist (no real resolver is ever asked)."""
+        import ipaddress
+        import socket as _socket
+        await asyncio.sleep(0)
+        if isinstance(host, bytes):
+            host = host.decode()
+        ip = None
+        try:
+            ip = str(ipaddress.ip_address(host))
+        except ValueError:
+            for h in getattr(self.net, "udp_hosts", []) if self.net is not None else []:
+                if host in getattr(h, "names", ()):
+                    ip = h.ip
+                    break
+        if ip is None or ":" in ip:
+            raise _socket.gaierror(-2, "Name or service not known")
+        kinds = [(type or _socket.SOCK_STREAM, proto or (17 if type == _socket.SOCK_DGRAM else 6))]
+        return [(_socket.AF_INET, k, pr, "", (ip, int(port or 0))) for k, pr in kinds]
+
     async def create_datagram_endpoint(self, protocol_factory, local_addr=None, remote_addr=None, **kw):  # type: ignore[override]
         if self.net is None:
             raise OSError("no simulated network attached")
-        return await self.net.udp_endpoint(self, protocol_factory, local_addr, remote_addr)
+        sock = kw.get("sock")
+        preset = []
+        if sock is not None:
+            # the library made its own UDP socket: its options and bound address carry over to the simulated endpoint, the real
+            # socket is closed (nothing may leave the sandbox)
+            import socket as _socket
+            try:
+                for level, opt in ((_socket.SOL_SOCKET, _socket.SO_BROADCAST), (_socket.SOL_SOCKET, _socket.SO_REUSEADDR)):
+                    if sock.getsockopt(level, opt):
+                        preset.append((level, opt, 1))
+                local_addr = local_addr or sock.getsockname()
+            except OSError:
+                pass
+            try:
+                sock.close()
+            except OSError:
+                pass
+        return await self.net.udp_endpoint(self, protocol_factory, local_addr, remote_addr, preset_options=preset)
 
 
 # ---------------------------------------------------------------------------
